@@ -103,9 +103,9 @@ def crc64 (b : Bytes) : Nat := (Crc.checksum b).toNat
 def layerOf (kk : KeyKind) (bf : Nat) (k : Nat) : Nat :=
   match kk with
   | .vk => k % 256
-  | .u64 => uintLayer bf k
-  | .i64 => uintLayer bf (if k ≥ Codec.i64bias then k - Codec.i64bias else Codec.i64bias - k)
-  | .str | .bytes => uintLayer bf (crc64 (Codec.keyRaw kk k))
+  | .u64 | .uint => uintLayer bf k
+  | .i64 | .int => uintLayer bf (if k ≥ Codec.i64bias then k - Codec.i64bias else Codec.i64bias - k)
+  | .str | .bytes | .sk => uintLayer bf (crc64 (Codec.keyRaw kk k))
 
 inductive Fmt where
   | bin | json
